@@ -1,7 +1,7 @@
 (* C11 - The command-byte table is total, exact and invertible.
    Statements only; every proof is `exact <lemma>` from Proofs/.  The byte domain 0 <= b < 256 is
    complete because the Rust argument is a u8. *)
-From Ctap Require Import Base Schema Procs Inst ProcTables Finite C11P ObOpTables FnShapes Shapes ObShapeRequest.
+From Ctap Require Import Base Schema Procs Inst ProcTables Finite C11P ObOpTables FnShapes Shapes ObShapeRequest Deps ObDeps.
 Local Open Scope string_scope.
 Local Open Scope Z_scope.
 
@@ -127,6 +127,10 @@ Proof. vm_compute. tauto. Qed.
 Theorem c11_modelled_functions_unchanged_request : shapes_hold fn_shapes shapes_request = true.
 Proof. exact generated_shapes_request. Qed.
 
+(* the third-party crates the model represents by hand are pinned at the versions it was written against *)
+Theorem c11_modelled_dependencies_pinned : deps_hold lock_versions cargo_deps = true.
+Proof. exact generated_deps. Qed.
+
 Eval vm_compute in "ASSUMPTIONS c11_recognised_exact". Print Assumptions c11_recognised_exact.
 Eval vm_compute in "ASSUMPTIONS c11_vendor_try_from". Print Assumptions c11_vendor_try_from.
 Eval vm_compute in "ASSUMPTIONS c11_roundtrip". Print Assumptions c11_roundtrip.
@@ -143,3 +147,4 @@ Eval vm_compute in "ASSUMPTIONS c11_rejected_set". Print Assumptions c11_rejecte
 Eval vm_compute in "ASSUMPTIONS c11_generated_conforms". Print Assumptions c11_generated_conforms.
 Eval vm_compute in "ASSUMPTIONS c11_generated_route". Print Assumptions c11_generated_route.
 Eval vm_compute in "ASSUMPTIONS c11_modelled_functions_unchanged_request". Print Assumptions c11_modelled_functions_unchanged_request.
+Eval vm_compute in "ASSUMPTIONS c11_modelled_dependencies_pinned". Print Assumptions c11_modelled_dependencies_pinned.
